@@ -13,7 +13,9 @@ from .common import Violation, World, probe
 PROTOS_WIRED = ["small-lamp", "small-lamp", "small-lamp", "inserter", "fast-inserter",
                 "transport-belt", "pump", "train-stop", "power-switch", "assembling-machine-1"]
 PROTOS_ANY = PROTOS_WIRED + ["steel-chest", "iron-chest", "storage-tank", "stone-furnace",
-                             "electric-furnace", "assembling-machine-2", "radar", "wooden-chest"]
+                             "electric-furnace", "assembling-machine-2", "radar", "wooden-chest",
+                             "medium-electric-pole", "big-electric-pole", "small-electric-pole",
+                             "substation"]
 
 
 class Occupancy:
@@ -284,8 +286,26 @@ def check_user_entities(w: World, places, res: dict) -> None:
     """Multiset of (prototype, top-left tile) of non-compiler entities == reference placements;
     whitelisted static properties applied."""
     exp: dict = {}
+    exp_poles: dict = {}
     for p in places:
-        exp.setdefault((p.proto, p.x, p.y), []).append(p)
+        if gamedata.kind_of(p.proto) == "pole":
+            exp_poles.setdefault((p.proto, p.x, p.y), []).append(p)
+        else:
+            exp.setdefault((p.proto, p.x, p.y), []).append(p)
+    # user-placed poles: the compiler adds poles of its own, so only presence is demanded
+    if exp_poles:
+        have: dict = {}
+        for e in w.ents.values():
+            if e.kind == "pole":
+                tw, th = gamedata.tile_size(e.name, e.direction)
+                key = (e.name, int(round(e.x - tw / 2.0)), int(round(e.y - th / 2.0)))
+                have[key] = have.get(key, 0) + 1
+        for k, lst in exp_poles.items():
+            if have.get(k, 0) < len(lst):
+                raise Violation("user-entity-missing-or-moved", {
+                    "expected": list(k), "count_expected": len(lst), "count_got": have.get(k, 0),
+                    "same_prototype_at": sorted(kk for kk in have if kk[0] == k[0])[:10]})
+        probe(res, "user_placed_poles_checked", len(exp_poles))
     got: dict = {}
     for e in user_entities(w):
         tw, th = gamedata.tile_size(e.name, e.direction)
